@@ -26,6 +26,18 @@ CLAIMED = {
              'labels and division by zero; tied to the code by differential execution on generated well-formed and malformed '
              'expression texts (tokens and values).',
         ref='DESIGN.md §6 C07', technique='Coq proof over expression model + lexer/parser/evaluator correspondence by vm_compute'),
+    'C08': dict(
+        text='Refinement theorem, for every block-structured program of any nesting depth and every condition evaluator: the flat '
+             'line-by-line processor (condition stack, mute counter, directive gating) produces exactly what the block semantics '
+             'prescribes; unmatched #else/#elif/#endif rejected; integer comparison theorem. Tied to the code by running '
+             'AssemblyFile.load_line_objects on generated well- and ill-nested directive sequences.',
+        ref='DESIGN.md §6 C08', technique='Coq refinement proof (flat stack machine -> block semantics) + correspondence by vm_compute'),
+    'C09': dict(
+        text='Theorems on the substitution model: whole-word replacement touches only word segments equal to the symbol, lines '
+             'without defined symbols are unchanged, duplicate definitions and direct self-reference are rejected; tied to the '
+             'code by differential execution of Preprocessor.resolve_symbols on generated tables (chains, diamonds, cycles, '
+             'prefix/suffix/infix names) and, for definition order, through the C08 file tie.',
+        ref='DESIGN.md §6 C09', technique='Coq proof over substitution model + correspondence by vm_compute'),
 }
 
 ALL = [f'C{i:02d}' for i in range(1, 21)]
